@@ -1,5 +1,6 @@
 import Midgard.Core.Proto
 import Midgard.Model.DatasetOps
+import Midgard.Model.DatasetRecords
 
 /-!
 Driver for C09.  One line = one whole history:
@@ -11,7 +12,8 @@ stops at the first error), joined by ` || `.
 
 Encodings (no blanks inside a token): rows `r;r;r` (`[]` if none), a row `s,s,s`, a scalar
 `n<rat>` | `nan` | `t<hex>` | `b0` | `b1`; a path `a.b.c`; a reference `o<k>` | `f<d>:<path>` | `-`;
-an index `m0110` | `i1,-2`; the unit table `from>to=rat,…` or `-`.
+an index `m0110` | `i1,-2`; the unit table `from>to=rat,…` or `-`; `diff <d> <e> <r> <index fields a,b | -> <copy_self 0|1>
+<copy_other 0|1>` puts `ds[d].difference(ds[e], …)` into slot `r`.
 -/
 namespace Driver.DS
 open Midgard.Proto Midgard.Dataset
@@ -104,6 +106,9 @@ def parseOp? : List String → Option Op
     pure (.merge (← d.toNat?) (← parseNats? es) (if sb == "-" then none else parsePath? sb))
   | ["filter", d, fl] => do pure (.filterSubset (← d.toNat?) (← parseFilters? fl))
   | ["unique", d, p] => do pure (.unique (← d.toNat?) (← parsePath? p))
+  | ["diff", d, e, r, ib, cs, co] => do
+    pure (.difference (← d.toNat?) (← e.toNat?) (← r.toNat?) (if ib == "-" then none else some (ib.splitOn ","))
+      (cs == "1") (co == "1"))
   | _ => none
 
 /-! ### Observation: the whole world with objects numbered in first-visit order -/
@@ -170,6 +175,22 @@ def splitOps (ts : List String) : List (List String) :=
     if t == "|" then ([], p.2 ++ [p.1]) else (p.1 ++ [t], p.2)) ([], [])
   (acc ++ [cur]).filter (fun l => !l.isEmpty)
 
+/-- For an `extend d e` whose two datasets consist of plain columns only (bool / float / text at any depth):
+the columns of the **list-of-records `extend`** (`aExtendFields`, the heap-free specification) evaluated on the
+state *before* the operation, as `x<dotted name>=<rows>/…`; the harness compares them with the dataset the real
+code produced.  `-` otherwise. -/
+def recordsOut (w : W) : Op → Option String
+  | .extend d e =>
+    match w.getDs d, w.getDs e with
+    | .ok x, .ok y =>
+      if Field.plain.plainL x.fields && Field.plain.plainL y.fields then
+        match aExtendFields w.units x.numObs y.numObs (absField.absFields w.heap x.fields) (absField.absFields w.heap y.fields) with
+        | some cols => some ("x" ++ "/".intercalate ((aLeaves.aLeavesL cols).map (fun p => p.1 ++ "=" ++ showRows p.2)))
+        | none => some "x!"
+      else none
+    | _, _ => none
+  | _ => none
+
 /-- an operation prefixed with the token `q` (set-up) answers `ok:-:~` without rendering the world -/
 def runOps (w : W) : List (List String) → List String
   | [] => []
@@ -183,6 +204,6 @@ def runOps (w : W) : List (List String) → List String
       match step w op with
       | .error e => ["ERR:" ++ showErr e]
       | .ok (w', out) =>
-        (if quiet then "ok:-:~" else s!"ok:{showOut out}:{renderWorld w'}") :: runOps w' rest
+        (if quiet then "ok:-:~" else s!"ok:{(recordsOut w op).getD (showOut out)}:{renderWorld w'}") :: runOps w' rest
 
 end Driver.DS
